@@ -40,3 +40,10 @@ package limits
 //@   ensures [first_match] old(r.Body) != nil ==> forall(m, 0, len(l.BodyLimits), (hit(m) && forall(j, 0, m, !hit(j))) ==> (isWrap(r.Body) && wrapLimit(r.Body) == l.BodyLimits[m].Limit))
 //@   loop 1 invariant 0 <= #i && #i <= len(l.BodyLimits) && r.Body == old(r.Body) && r.URL == old(r.URL) && r.URL.Path == old(r.URL.Path) && calledNext == old(calledNext)
 //@   loop 1 invariant forall(k, 0, #i, !hit(k))
+
+//@ unit setup_sweep props=C11 files=setup.go nilchecks=on nonnil_params=on dispenser_variants=on filter=`.`
+//@ // Safety sweep of this directive's setup code: index, slice, division, nil-map store, nil dereference, explicit panic,
+//@ // and termination of the loops driven by the token cursor. No functional contract; callees in the dispenser through their contracts.
+//@ use casketfile/contracts_verif.go:dispenser_api
+//@ use @verif/specs/stdlib.spec:stdlib
+//@ use @verif/specs/stdlib.spec:casket_api
